@@ -165,6 +165,7 @@ func verifyFunctionAliased(l *Loaded, specs *Specs, ct *Contract, localAlias map
 	w.topContract = ct
 	w.topFrame = nil
 	w.forgetMark = 0
+	w.witnessTerms = nil
 	defer func() {
 		if r := recover(); r != nil {
 			if u, ok := r.(unsupportedErr); ok {
@@ -231,7 +232,7 @@ func verifyFunctionAliased(l *Loaded, specs *Specs, ct *Contract, localAlias map
 	w.topFrame = fr
 	entryEnv := w.contractEnv(fr, fr.entry, fr.entry)
 	for _, rq := range ct.Requires {
-		w.sc.assume(w.evalBool(entryEnv, rq.Expr))
+		w.sc.assume(w.evalBool(entryEnv.assuming(), rq.Expr))
 		w.noteQuantFacts(tTrue, entryEnv, rq.Expr)
 	}
 	for _, sp := range ct.Splits {
